@@ -6,6 +6,7 @@ import vyper.compiler.output as output
 from vyper.compiler.input_bundle import FileInput, InputBundle, JSONInput, PathLike
 from vyper.compiler.phases import CompilerData
 from vyper.compiler.settings import Settings, anchor_settings, get_global_settings
+from vyper.exceptions import StructureException
 from vyper.typing import OutputFormats, StorageLayout
 
 OUTPUT_FORMATS = {
@@ -122,6 +123,29 @@ def compile_from_file_input(
 
 
 def outputs_from_compiler_data(
+    compiler_data: CompilerData,
+    output_formats: Optional[OutputFormats] = None,
+    exc_handler: Optional[Callable] = None,
+):
+    try:
+        return _outputs_from_compiler_data(compiler_data, output_formats, exc_handler)
+    except RecursionError:
+        # the compiler's passes are recursive over the AST / IR; a
+        # pathologically nested source (e.g. an expression with hundreds of
+        # chained operators) exhausts the python stack. report a diagnostic
+        # instead of a raw RecursionError.
+        exc = StructureException(
+            "Source code is too deeply nested for the compiler (python "
+            "recursion limit reached). Split large expressions into several "
+            "statements."
+        )
+        if exc_handler is not None:
+            exc_handler(str(compiler_data.file_input.path), exc)
+            return {}
+        raise exc from None
+
+
+def _outputs_from_compiler_data(
     compiler_data: CompilerData,
     output_formats: Optional[OutputFormats] = None,
     exc_handler: Optional[Callable] = None,
